@@ -23,6 +23,9 @@ class SymArr:
         return len(self.e)
 
 
+_NORET = object()
+
+
 class StateDependence(Exception):
     """the benchmark reads or writes module-level mutable state: it is not a function of x alone"""
 
@@ -87,13 +90,19 @@ class Translator:
                 if len(defs) == 1 and not rebound and all(isinstance(x_, (ast.Constant, ast.BinOp, ast.UnaryOp, ast.operator, ast.unaryop,
                                                                          ast.Attribute, ast.Name, ast.Load, ast.Call))
                                                           for x_ in ast.walk(defs[0].value)):
-                    saved = self.env
-                    self.env = {}
-                    try:
-                        v_ = self.ev(defs[0].value)
-                    finally:
-                        self.env = saved
-                    return v_
+                    written = any(isinstance(x_, (ast.Subscript, ast.Attribute)) and isinstance(x_.ctx, (ast.Store, ast.Del)) and
+                                  isinstance(getattr(x_, "value", None), ast.Name) and x_.value.id == e.id for x_ in ast.walk(mod))
+                    if not written:
+                        saved = self.env
+                        self.env = {}
+                        try:
+                            v_ = self.ev(defs[0].value)
+                        finally:
+                            self.env = saved
+                        return v_
+                if defs:
+                    raise StateDependence(f"{self.f.name} reads the module-level object `{e.id}` (line {defs[0].lineno}), which is not a numeric "
+                                          f"constant / is written at run time: the value depends on the calls made before, not on x alone")
                 self.err(e, f"unknown name {e.id}")
             return self.env[e.id]
         if isinstance(e, ast.Attribute):
@@ -147,8 +156,32 @@ class Translator:
     def call(self, c: ast.Call):
         sp = self.sp
         d = dotted(c.func)
-        if c.keywords:
+        if c.keywords and not (d == "np.divide" and {k.arg for k in c.keywords} <= {"out", "where"}):
             self.err(c, "keyword arguments")
+        if d == "np.concatenate" and len(c.args) == 1 and isinstance(c.args[0], (ast.Tuple, ast.List)) and not c.keywords:
+            out_ = []
+            for a_ in c.args[0].elts:
+                v_ = self.ev(a_)
+                out_ += list(v_.e) if isinstance(v_, SymArr) else [v_]
+            return SymArr(out_)
+        if d == "np.divide" and len(c.args) == 2:
+            a_, b_ = self.ev(c.args[0]), self.ev(c.args[1])
+            q_ = self.ew2(lambda x, y: x / y, a_, b_, c)
+            kws = {k.arg: k.value for k in c.keywords}
+            if "where" in kws:
+                # guarded division: like np.where, both alternatives (quotient / what `out` held) must satisfy the property
+                key = (c.lineno, c.col_offset)
+                if key not in self.where_sites:
+                    self.where_sites.append(key)
+                if not self.choices.get(key, True):
+                    if "out" not in kws:
+                        self.err(c, "np.divide(where=) without out=: unselected entries are uninitialised")
+                    q_ = self.ev(kws["out"])
+            if "out" in kws:
+                if not isinstance(kws["out"], ast.Name):
+                    self.err(c, "out= target")
+                self.env[kws["out"].id] = q_
+            return q_
         if d == "np.where" and len(c.args) == 3:
             # a guard inside a benchmark: both alternatives must satisfy the property, so the
             # caller enumerates the choices; the condition itself is not interpreted
@@ -244,11 +277,56 @@ class Translator:
                     self.err(s, "augmented target")
             elif isinstance(s, ast.Return):
                 return self.ev(s.value)
+            elif isinstance(s, ast.Expr) and isinstance(s.value, ast.Call) and dotted(s.value.func) == "np.divide":
+                self.ev(s.value)
+            elif isinstance(s, ast.If):
+                tv = self.truth(s.test)
+                r_ = self.block(s.body if tv else s.orelse)
+                if r_ is not _NORET:
+                    return r_
+            elif isinstance(s, ast.Pass):
+                continue
             else:
                 self.err(s, type(s).__name__)
         self.err(self.f.node, "no return")
 
+    def block(self, stmts):
+        """run a nested statement list with the same rules; returns the returned value or _NORET"""
+        saved = self.f
+        fake = ast.FunctionDef(name=self.f.node.name, args=self.f.node.args, body=list(stmts) + [ast.Return(value=ast.Name(id="__noret__", ctx=ast.Load()))],
+                               decorator_list=[], returns=None, type_comment=None, lineno=getattr(stmts[0], "lineno", 1) if stmts else 1, col_offset=0)
+        self.env["__noret__"] = _NORET
+        node_saved = self.f.node
+        try:
+            self.f.node = fake
+            return self.run()
+        finally:
+            self.f.node = node_saved
+            self.env.pop("__noret__", None)
+
+    def truth(self, t: ast.expr) -> bool:
+        """a branch on the problem size (or another concrete integer): decided for the n under analysis"""
+        sp = self.sp
+        if isinstance(t, ast.UnaryOp) and isinstance(t.op, ast.Not):
+            return not self.truth(t.operand)
+        if isinstance(t, ast.BoolOp):
+            vs = [self.truth(v) for v in t.values]
+            return all(vs) if isinstance(t.op, ast.And) else any(vs)
+        if isinstance(t, ast.Compare) and len(t.ops) == 1:
+            a, b = self.ev(t.left), self.ev(t.comparators[0])
+            if isinstance(a, SymArr) or isinstance(b, SymArr) or not (a.is_number and b.is_number):
+                self.err(t, "branch on a value that depends on x")
+            ops = {ast.Lt: lambda x, y: x < y, ast.LtE: lambda x, y: x <= y, ast.Gt: lambda x, y: x > y, ast.GtE: lambda x, y: x >= y,
+                   ast.Eq: lambda x, y: sp.simplify(x - y) == 0, ast.NotEq: lambda x, y: sp.simplify(x - y) != 0}
+            if type(t.ops[0]) not in ops:
+                self.err(t, "comparison operator")
+            return bool(ops[type(t.ops[0])](a, b))
+        self.err(t, "branch condition")
+
     def store(self, t: ast.Subscript, v, op, node):
+        if t.value.id not in self.env:
+            raise StateDependence(f"{self.f.name} writes into `{t.value.id}`, an object that outlives the call (line {getattr(node, 'lineno', '?')}): "
+                                  f"later values depend on the calls made before, not on x alone")
         arr = self.env.get(t.value.id)
         if not isinstance(arr, SymArr):
             self.err(node, "store into a non-array")
@@ -300,7 +378,9 @@ def residual_zero(sp, res, xs) -> Tuple[bool, str, Optional[dict]]:
 
 
 def _nmax() -> int:
-    return 12 if os.environ.get("SA_TIER", "quick") == "thorough" else 6
+    # the property quantifies over n in 1..12; the whole range costs about 7 s on the current tree, so both tiers cover it
+    # (a table that is only wrong beyond n = 10 -- seeded change R2_C19-b -- needs n >= 11)
+    return 12
 
 
 @rule("AD", min_instances=8)
